@@ -121,6 +121,7 @@ type pathState struct {
 	csvModel     bool
 	jsonDecode   value // harness closure standing in for encoding/json's decoder (vx.ModelJSONDecoder)
 	jsonReader   value
+	released     map[*value]string // cells reachable from objects handed to sync.Pool.Put (use-after-release monitor)
 	jsonFactory  value // vx.ModelJSONStream: harness factory for a stream object
 	jsonStream   value // the current stream object (iface)
 	lastRegexp   string
@@ -388,6 +389,11 @@ func (i *interpreter) writeCell(addr *value, v value) {
 	ps := i.ps
 	if ps != nil {
 		ps.undo = append(ps.undo, undoRec{addr, *addr})
+		if len(ps.released) > 0 {
+			if what, ok := ps.released[addr]; ok {
+				i.noteSharedWrite("use after release (store): " + what)
+			}
+		}
 		if ps.frozenOn {
 			if what, ok := ps.frozen[addr]; ok {
 				i.res.FrozenWrites[what+" @ "+i.curPosString()]++
